@@ -49,7 +49,8 @@ class Sim:
         self.groups = []        # model ops (Coq text) per harness op
         self.nval = 0
         self.free_workers = list(range(workers))
-        self.stats = {"max_depth": 0, "drops": 0, "xthread_drops": 0, "intermediate_drop": 0, "loads": 0}
+        self.stats = {"max_depth": 0, "drops": 0, "xthread_drops": 0, "intermediate_drop": 0, "loads": 0,
+                      "carriers": 0, "carrier_chain": 0, "carrier_sole_holder": 0}
 
     # -- helpers
     def sym(self, name):
@@ -127,10 +128,12 @@ class Sim:
         scope = dict(real_scope)      # names of the globals are visible during this evaluation only
         mops, lines, mods = [], [], {}
         g = None
+        plain = False
         gl = self.held("globals")
         if gl and self.rng.random() < 0.45:
             g = self.rng.choice(gl)
             go = self.objs[g]
+            plain = bool(go.get("carrier"))      # GlobalsBuilder::new(): no struct/partial/record/enum/typing
             binds = []
             for name, info in go["syms"].items():
                 binds.append("(%d, %d)" % (self.sym(name), self.sym(name)))
@@ -161,6 +164,8 @@ class Sim:
         for _ in range(self.rng.randint(1, 4)):
             name = self.fresh("v%d_" % m)
             kind = self.rng.choice(["list", "tuple", "dict", "struct", "fun", "partial", "record", "enum", "str", "alias", "list", "dict"])
+            if plain and kind in ("struct", "partial", "record", "enum"):
+                kind = self.rng.choice(["list", "tuple", "dict", "fun"])
             refs = self.pick_refs(scope, self.rng.choice([0, 1, 1, 2, 2]))
             if kind == "alias" and not refs:
                 kind = "str"
@@ -336,6 +341,99 @@ class Sim:
         self.emit({"op": "from_globals", "g": g, "f": f}, ["OpFromGlobals %d" % g])
         return True
 
+    # -- carriers: frozen heaps that hold ONLY references (nothing is ever allocated in them)
+    def carried(self, ko, via_heap):
+        v = ko["val"]
+        return self.copy(v, depth=v["depth"] + 1, via=v["via"] | {via_heap})
+
+    def note_carrier(self, ko):
+        self.stats["carriers"] += 1
+        if ko.get("carrier"):
+            self.stats["carrier_chain"] += 1
+
+    def op_rehome(self, k=None, mode=None, consume=None):
+        """OwnedFrozen::build / FrozenHeap::new + add_reference + into_ref: handle k moved into a fresh empty heap."""
+        hs = self.held("handle")
+        if k is None:
+            if not hs:
+                return False
+            # prefer handles that are themselves owned by a carrier (chains)
+            chained = [x for x in hs if self.objs[x].get("carrier")]
+            k = self.rng.choice(chained if chained and self.rng.random() < 0.5 else hs)
+        ko = self.objs[k]
+        k2 = self.new_rid()
+        h = self.new_hid(k2)
+        mode = mode or self.rng.choice(["build", "build", "build_edge", "heap", "heap_named"])
+        consume = (self.rng.random() < 0.5) if consume is None else consume
+        self.objs[k2] = {"kind": "handle", "heap": h, "val": self.carried(ko, ko["heap"]), "held": True, "carrier": True}
+        self.note_carrier(ko)
+        mops = ["OpNewCarrier", "OpAddToCarrier %d %d 0" % (k, k2), "OpSealCarrier %d 0" % k2]
+        if consume:
+            ko["held"] = False
+            self.note_drop(k)
+            mops.append("OpDrop %d" % k)
+        self.emit({"op": "rehome", "k": k, "k2": k2, "mode": mode, "consume": consume}, mops)
+        return True
+
+    def op_new_carrier(self, ckind=None):
+        scripted = ckind is not None
+        if len(self.held("carrier")) >= 2 or (not scripted and not self.held("handle")):
+            return False
+        b = self.new_rid()
+        h = self.new_hid(b)
+        ckind = ckind or self.rng.choice(["heap", "globals"])
+        self.objs[b] = {"kind": "carrier", "ckind": ckind, "heap": h, "syms": {}, "last": None, "held": True, "carrier": True}
+        self.emit({"op": "new_carrier", "b": b, "kind": ckind}, ["OpNewCarrier"])
+        if not scripted and self.rng.random() < 0.85:
+            self.op_add_to_carrier(k=self.rng.choice(self.held("handle")), b=b)
+            if self.rng.random() < 0.4:
+                self.op_seal_carrier(b=b)
+        return True
+
+    def op_add_to_carrier(self, k=None, b=None, mode=None):
+        hs, bs = self.held("handle"), self.held("carrier")
+        if k is None or b is None:
+            if not hs or not bs:
+                return False
+            k, b = self.rng.choice(hs), self.rng.choice(bs)
+        ko, bo = self.objs[k], self.objs[b]
+        if bo["ckind"] == "globals":
+            free = [c for c in "abcdefghijklmnopqrstuvwxyz" if c not in bo["syms"]]
+            if not free:
+                return False
+            name = self.rng.choice(free)      # 1-char names are constant strings: `build` allocates nothing
+        else:
+            name = "?"
+        info = self.copy(self.carried(ko, ko["heap"]), name=name, public=True)
+        if bo["ckind"] == "globals":
+            bo["syms"][name] = info
+            s = self.sym(name)
+        else:
+            bo["last"] = info
+            s = 0
+        self.note_carrier(ko)
+        self.emit({"op": "add_to_carrier", "k": k, "b": b, "name": name, "mode": mode or self.rng.choice(["ref", "edge", "raw"])},
+                  ["OpAddToCarrier %d %d %d" % (k, b, s)])
+        return True
+
+    def op_seal_carrier(self, b=None):
+        bs = [x for x in self.held("carrier") if self.objs[x]["syms"] or self.objs[x]["last"]]
+        if b is None:
+            if not bs:
+                return False
+            b = self.rng.choice(bs)
+        bo = self.objs[b]
+        op = {"op": "seal_carrier", "b": b}
+        if bo["ckind"] == "globals":
+            bo["kind"] = "globals"
+            self.emit(op, ["OpSealCarrier %d 1" % b])
+        else:
+            bo["kind"] = "handle"
+            bo["val"] = bo["last"]
+            op["named"] = self.rng.random() < 0.5
+            self.emit(op, ["OpSealCarrier %d 0" % b])
+        return True
+
     def op_clone(self):
         cands = self.held("frozen") + self.held("handle") + self.held("globals")
         if not cands:
@@ -350,6 +448,16 @@ class Sim:
         """Statistics: is this the drop of an intermediate module while a downstream value is still held?"""
         o = self.objs[r]
         self.stats["drops"] += 1
+        # statistics: after this drop, is some value held ONLY through carrier-owned objects while its home module's
+        # own objects (module / handles owned by it) are all gone?
+        for r2, o2 in self.objs.items():
+            if r2 != r and o2["held"] and o2.get("carrier") and o2["kind"] in ("handle", "globals"):
+                infos = [o2["val"]] if o2["kind"] == "handle" else list(o2["syms"].values())
+                homes = {i["home"] for i in infos if i}
+                direct = {o3["heap"] for r3, o3 in self.objs.items() if r3 != r and o3["held"] and not o3.get("carrier")}
+                if homes and not (homes & direct) and o["heap"] in homes:
+                    self.stats["carrier_sole_holder"] += 1
+                    break
         if o["kind"] not in ("frozen", "globals"):
             return
         h = o["heap"]
@@ -362,7 +470,7 @@ class Sim:
                 return
 
     def op_drop(self):
-        cands = self.held("frozen") * 3 + self.held("handle") * 2 + self.held("globals") * 2 + self.held("builder")
+        cands = self.held("frozen") * 3 + self.held("handle") * 2 + self.held("globals") * 2 + self.held("builder") + self.held("carrier")
         if not cands:
             return False
         r = self.rng.choice(cands)
@@ -376,7 +484,8 @@ class Sim:
 
 
 WEIGHTS = [("open", 10), ("eval", 5), ("import", 5), ("freeze", 12), ("get_owned", 10), ("map", 4), ("add_to_heap", 8),
-           ("new_builder", 4), ("add_to_builder", 10), ("build", 7), ("from_globals", 4), ("clone", 4), ("drop", 17)]
+           ("new_builder", 4), ("add_to_builder", 10), ("build", 7), ("from_globals", 4), ("clone", 4), ("drop", 17),
+           ("rehome", 9), ("new_carrier", 5), ("add_to_carrier", 5), ("seal_carrier", 9)]
 
 
 def gen_history(rng, cid, max_ops=25):
@@ -397,7 +506,7 @@ def finish(sim, cid):
     for o in sim.ops:
         dist[o["op"]] = dist.get(o["op"], 0) + 1
     st = dict(sim.stats)
-    st["nontrivial"] = bool(st["max_depth"] >= 2 and st["intermediate_drop"] > 0)
+    st["nontrivial"] = bool((st["max_depth"] >= 2 and st["intermediate_drop"] > 0) or st["carrier_sole_holder"] > 0)
     return {"case": {"id": cid, "workers": sim.workers, "ops": sim.ops}, "groups": sim.groups,
             "labels": {str(h): r for h, r in sim.hid_label.items()}, "stats": st, "dist": dist}
 
@@ -451,11 +560,63 @@ def directed(rng, cid0):
     return out
 
 
+def directed_carriers(rng, cid0):
+    """A defines a value; an owned handle to it is moved into a fresh frozen heap in which NOTHING is allocated (every
+    public route), that handle is moved again (chain of two carriers), the result is put into a `GlobalsBuilder::new()`
+    under a constant-string name (a third carrier) and a module is made from those globals; then module A, the original
+    handle, the two re-homed handles and the globals are dropped in EVERY order (the module made from the globals
+    stays), on varying threads."""
+    out = []
+    modes = ["build", "build_edge", "heap", "heap_named"]
+    amodes = ["ref", "edge", "raw"]
+    perms = list(itertools.permutations([0, 1, 2, 3, 4]))
+    rng.shuffle(perms)
+    for i, p in enumerate(perms):
+        sim = Sim(rng, 2)
+        sim.objs[0] = {"kind": "open", "heap": sim.new_hid(sim.new_rid()), "syms": {}, "held": True, "worker": 0}
+        sim.free_workers.remove(0)
+        sim.emit({"op": "open", "m": 0, "w": 0}, ["OpNewModule"])
+        info = {"name": "a_x", "home": 0, "public": True, "shape": ("cont", [(0, ("lit", "1")), (1, ("lit", "s")), (2, ("lit", "t"))]),
+                "depth": 0, "via": frozenset()}
+        sim.objs[0]["syms"] = {"a_x": info, "a_f": dict(info, name="a_f", shape=("opaque",))}
+        sim.emit({"op": "eval", "m": 0, "g": None, "mods": {}, "gc": i % 3,
+                  "src": 'a_x = [1, "a value of module A %s", (2, 1 << 90)]\ndef a_f(q):\n    return [q, a_x]\n' % (LONG * 6)},
+                 ["OpDefine 0 %d []" % sim.sym("a_x"), "OpDefine 0 %d [%d]" % (sim.sym("a_f"), sim.sym("a_x"))])
+        sim.objs[0]["kind"] = "frozen"
+        sim.free_workers.append(0)
+        sim.emit({"op": "freeze", "m": 0}, ["OpFreeze 0"])
+        name = "a_f" if i % 5 == 4 else "a_x"
+        sim.objs[1] = {"kind": "handle", "heap": 0, "val": sim.objs[0]["syms"][name], "held": True}
+        assert sim.new_rid() == 1
+        sim.emit({"op": "get_owned", "f": 0, "name": name, "k": 1}, ["OpGetOwned 0 %d" % sim.sym(name)])
+        sim.op_rehome(k=1, mode=modes[i % 4], consume=False)                 # handle 2, heap 1
+        sim.op_rehome(k=2, mode=modes[(i // 4) % 4], consume=False)          # handle 3, heap 2
+        sim.op_new_carrier(ckind="globals")                                  # carrier 4, heap 3
+        sim.op_add_to_carrier(k=3, b=4, mode=amodes[i % 3])
+        sim.op_seal_carrier(b=4)                                             # globals 4
+        g = sim.objs[4]
+        f = sim.new_rid()
+        syms = {n: sim.copy(v, depth=v["depth"] + 1, via=v["via"] | {g["heap"]}) for n, v in g["syms"].items()}
+        sim.objs[f] = {"kind": "frozen", "heap": sim.new_hid(f), "syms": syms, "held": True}
+        sim.emit({"op": "from_globals", "g": 4, "f": f}, ["OpFromGlobals 4"])   # frozen module 5, heap 4
+        for j, r in enumerate(p):
+            sim.objs[r]["held"] = False
+            sim.note_drop(r)
+            where = ["main", "fresh", 0, 1][(i + j) % 4]
+            sim.emit({"op": "drop", "r": r, "where": where}, ["OpDrop %d" % r])
+        it = finish(sim, cid0 + i)
+        it["stats"]["nontrivial"] = True       # by construction: A is dropped while its value is held only through carriers
+        it["stats"]["xthread_drops"] = sum(1 for o in it["case"]["ops"] if o["op"] == "drop" and o["where"] != "main")
+        it["directed"] = True
+        out.append(it)
+    return out
+
+
 # ------------------------------------------------------------------------------------------------ model
 
 TAGS = {"OpNewModule": 0, "OpEval": 1, "OpLoad": 2, "OpImport": 3, "OpDefine": 4, "OpAlias": 5, "OpFreeze": 6, "OpGetOwned": 7,
         "OpMap": 8, "OpAddToHeap": 9, "OpNewBuilder": 10, "OpAddToBuilder": 11, "OpBuild": 12, "OpFromGlobals": 13, "OpClone": 14,
-        "OpDrop": 15}
+        "OpDrop": 15, "OpNewCarrier": 16, "OpAddToCarrier": 17, "OpSealCarrier": 18}
 
 
 def encode_op(text):
@@ -532,6 +693,7 @@ def expected_refs(o, labels, kinds):
             exp["r%d" % r] = hm.get(hs[0], [])
         elif k == "handle" and hs:
             exp["k%d" % r] = "r%d" % labels[str(hs[0])]
+            exp["o%d" % r] = hm.get(hs[0], [])       # what the owner of the handle references (carriers: only that)
     return safe, exp
 
 
@@ -556,6 +718,12 @@ def kinds_after(it):
             kinds[o["f"]] = "frozen"
         elif op == "clone":
             kinds[o["as"]] = kinds.get(o["r"])
+        elif op == "rehome":
+            kinds[o["k2"]] = "handle"
+        elif op == "new_carrier":
+            kinds[o["b"]] = "carrier:" + o["kind"]
+        elif op == "seal_carrier":
+            kinds[o["b"]] = "globals" if kinds.get(o["b"]) == "carrier:globals" else "handle"
         out.append(dict(kinds))
     return out
 
@@ -682,6 +850,7 @@ def minimise(ctx, it, budget=40):
 
 def build_items(ctx, n, cid0=0):
     items = directed(ctx.rng, cid0)
+    items += directed_carriers(ctx.rng, cid0 + len(items))
     corpus = os.path.join(sv.ROOT, "corpus", "C13")
     if os.path.isdir(corpus):
         for fn in sorted(os.listdir(corpus)):
@@ -700,15 +869,15 @@ def build_items(ctx, n, cid0=0):
 
 
 def coverage_of(items, st, failures):
-    dist, agg = {}, {"max_depth": 0, "drops": 0, "xthread_drops": 0, "loads": 0}
+    dist, agg = {}, {"max_depth": 0, "drops": 0, "xthread_drops": 0, "loads": 0, "carriers": 0, "carrier_chain": 0, "carrier_sole_holder": 0}
     nontrivial = set()
     for it in items:
         for k, v in it["dist"].items():
             dist[k] = dist.get(k, 0) + v
         s = it["stats"]
         agg["max_depth"] = max(agg["max_depth"], s["max_depth"])
-        for k in ("drops", "xthread_drops", "loads"):
-            agg[k] += s[k]
+        for k in ("drops", "xthread_drops", "loads", "carriers", "carrier_chain", "carrier_sole_holder"):
+            agg[k] += s.get(k, 0)
         if s.get("nontrivial"):
             nontrivial.add(sv.digest(it["case"]["ops"]))
     return {
@@ -716,8 +885,13 @@ def coverage_of(items, st, failures):
         "distinct_nontrivial": len(nontrivial),
         "rule": "random histories (<= 25 operations) of: open/evaluate/import/freeze/abandon modules, load chains, get_owned, "
                 "handle map, add_to_heap (3 modes), globals builder + build, module from globals, clone, drop on main/worker/fresh "
-                "thread; plus every drop order of a directed A<-B<-C chain; non-trivial = some value travelled through >= 2 "
-                "load/re-export hops AND an intermediate module was dropped while a downstream value was still held; distinct by "
+                "thread; carriers = frozen heaps in which nothing is allocated: rehome of a handle (OwnedFrozen::build with "
+                "add_to_frozen_heap / frozen_edge, FrozenHeap::new + add_reference + into_ref / into_ref_named), open carriers "
+                "(FrozenHeap::new, GlobalsBuilder::new with constant-string names) filled from handles in 3 modes and sealed "
+                "into a handle / a Globals, chains of carriers; plus every drop order of a directed A<-B<-C chain and of a "
+                "directed module <- carrier <- carrier <- globals carrier <- module chain; non-trivial = (some value travelled "
+                "through >= 2 load/re-export hops AND an intermediate module was dropped while a downstream value was still "
+                "held) OR (a home module was dropped while its value was held only through carrier-owned objects); distinct by "
                 "operation list",
         "histories": len(items),
         "steps_checked": st["steps"],
@@ -729,6 +903,9 @@ def coverage_of(items, st, failures):
         "drops": agg["drops"],
         "cross_thread_drops": agg["xthread_drops"],
         "loads": agg["loads"],
+        "carrier_references_added": agg["carriers"],
+        "carrier_on_carrier_chains": agg["carrier_chain"],
+        "drops_leaving_a_carrier_as_sole_holder": agg["carrier_sole_holder"],
         "input_distribution": dist,
         "poisoning": True,
         "exhaustive": False,
